@@ -69,8 +69,13 @@ def _run_job(args):
     modname, job = args
     mod = importlib.import_module(modname)
     t0 = time.time()
+    from harness import core
+    before = dict(core.STYLE_COUNTS)
     res = mod.run(job)
     d = res.to_dict() if hasattr(res, "to_dict") else res
+    for k, v in core.STYLE_COUNTS.items():          # how many library calls were re-written by keyword / by position
+        if v - before.get(k, 0):
+            d["classes"]["calls_rewritten_" + k] = d["classes"].get("calls_rewritten_" + k, 0) + v - before.get(k, 0)
     d["wall_s"] = time.time() - t0
     d["job"] = {k: v for k, v in job.items() if isinstance(v, (int, float, str, bool, type(None)))}
     return d
